@@ -188,6 +188,8 @@ def floors(tier):
             "table_rows_costed": 60,
             "composed_cases": 40,
             "set:files": 19,
+            "multi_models_costed": 34,
+            "real_app_calls_after_other_models": 1500,
         }
     return {
         "evaluations": 30000,
@@ -207,6 +209,8 @@ def floors(tier):
         "table_rows_costed": 60,
         "composed_cases": 400,
         "set:files": 19,
+        "multi_models_costed": 100,
+        "real_app_calls_after_other_models": 15000,
     }
 
 
@@ -226,6 +230,18 @@ def plan(tier, seed):
                 specs.append({"kind": "cost", "arch": a, "part": k, "parts": parts, "every": 1, "rot": 0})
         else:
             specs.append({"kind": "cost", "arch": a, "part": 0, "parts": 1, "every": 6, "rot": rot})
+    # every model after every other one at least once over seeds: alphabetical, reversed, and (thorough) two rotations of a shuffle
+    orders = [sorted(archs), sorted(archs, reverse=True)]
+    if tier == "thorough":
+        import random
+
+        rr = random.Random(seed)
+        for _ in range(4):
+            o = list(archs)
+            rr.shuffle(o)
+            orders.append(o)
+    for o in orders:
+        specs.append({"kind": "multi", "order": o, "every": 4 if tier == "thorough" else 12, "rot": seed})
     for isa_file in ("isa/x86", "isa/aarch64"):
         if isa_file in files:
             specs.append({"kind": "isa", "file": isa_file, "every": 1 if tier == "thorough" else 3, "rot": seed % 3})
@@ -509,15 +525,19 @@ def report_crash(R, real, exc, matched, case, path):
     R.exception(exc, case, prefix="cost/")
 
 
-def real_app(real, name, k, fo, R):
-    """Real costing function on the entry's own micro-op list (reaches shadowed duplicates too)."""
+def real_app(real, name, k, fo, R, after=None):
+    """Real costing function on the entry's own micro-op list (reaches shadowed duplicates too).
+
+    after: models costed earlier in this process (every model must be costed on its own ports whatever was loaded before)."""
     pp = fo.port_pressure
     if pp is None:
         R.count("entries_without_port_pressure")
         return
     case = {"kind": "app", "arch": real.arch, "name": name, "k": k}
-    R.case(digest([real.arch, name, k, "app"]), nontrivial=bool(pp))
-    R.count("real_app_calls")
+    if after is not None:
+        case["after"] = list(after)
+    R.case(digest([real.arch, name, k, "app", after]), nontrivial=bool(pp))
+    R.count("real_app_calls" if after is None else "real_app_calls_after_other_models")
     defs = uop_defects(pp, real.ports)
     try:
         got = real.mm.average_port_pressure(pp)
@@ -531,7 +551,7 @@ def real_app(real, name, k, fo, R):
                     dict(case, defect=defs[0][0]))
         return
     if not any(close(got, cost(alt, real.ports)) for alt in alternatives(pp)):
-        R.violation("cost/average-port-pressure", "%s %s: average_port_pressure(%s) = %s, reference %s" % (real.arch, name, json.dumps(norm(pp))[:100], got, cost(alternatives(pp)[0], real.ports)), case)
+        R.violation("cost/average-port-pressure" + ("" if not after else "/after-other-models"), "%s %s: average_port_pressure(%s) = %s, reference %s" % (real.arch, name, json.dumps(norm(pp))[:100], got, cost(alternatives(pp)[0], real.ports)), case)
 
 
 def analyse_line(real, line, R, case, own=None, klass="real_path_cases"):
@@ -605,6 +625,19 @@ def run_cost(spec, R):
     if spec["part"] == 0:
         run_tables(real, R)
         run_composed(real, ents, R, limit=None if spec["every"] == 1 else 60)
+
+
+def run_multi(spec, R):
+    """All models costed one after the other in one process (a harness or a tool looping over micro-architectures)."""
+    for idx, arch in enumerate(spec["order"]):
+        real = Real(arch)
+        n = 0
+        for i, (name, k, fo) in enumerate(real.entries()):
+            if i % spec["every"] == spec["rot"] % spec["every"]:
+                real_app(real, name, k, fo, R, after=spec["order"][:idx])
+                n += 1
+        R.count("multi_models_costed")
+        R.observe("multi_orders", "%s after %s" % (arch, spec["order"][idx - 1] if idx else "-"))
 
 
 def run_tables(real, R):
@@ -860,6 +893,8 @@ def run_shard(spec, R):
         run_isa(spec, R)
     elif kind == "cli":
         run_cli(spec, R)
+    elif kind == "multi":
+        run_multi(spec, R)
     else:
         raise ValueError(kind)
 
@@ -883,7 +918,13 @@ def replay(case, R):
         fo = _find(real, case["name"], case["k"])
         if fo is None:
             raise ValueError("entry %s[%d] not in model %s" % (case["name"], case["k"], case["arch"]))
-        if kind == "app":
+        if kind == "app" and case.get("after"):
+            for a in case["after"]:
+                ra = Real(a)
+                ra.mm.average_port_pressure([[1, ra.ports[:1]]])
+            real = Real(case["arch"])
+            real_app(real, case["name"], case["k"], _find(real, case["name"], case["k"]), R, after=case["after"])
+        elif kind == "app":
             real_app(real, case["name"], case["k"], fo, R)
         elif kind == "line":
             how = analyse_line(real, case.get("line") or er.render(real.isa, fo), R, {k: v for k, v in case.items() if k not in ("traceback", "line")}, own=fo)
